@@ -220,6 +220,11 @@ def F_rules(ctx, rule="F"):
                         done_blocks.append(ebb)
         rel_blocks = [r["bb"] for r in rel if r["body"].id == b.id and "DONE" in r["roles"] and r["kind"] == "FAILED"]
         okf2 = bool(done_blocks) and bool(rel_blocks) and b.all_paths_pass(rs[0]["bb"], rel_blocks, done_blocks)
+        # ... and no done-send happens before the result is examined
+        early = [x for x in done_blocks if err_sb is None or not b.dominates(err_sb, x)]
+        ctx.check(not early, rule + "2", "done-after-result-check|%s" % key, where,
+                  "every done-send lies behind the examination of the user future's result (a failing function cannot have reported done already)",
+                  "a done-send at %s is not dominated by the match on the user future's result: a failing function reports done before its failure is seen" % [b.loc(x) for x in early])
         ctx.check(okf2, rule + "2", "release-before-done|%s" % key, where,
                   "from the Err arm every path to the done-send passes through the release of the done-sender: a failed function never reports done, so its successors never reach count 0",
                   "from the Err arm a done-send is reachable without releasing the done-sender first (release blocks %s, done-send blocks %s): dependents of a failed function are started" % (rel_blocks, done_blocks))
